@@ -19,7 +19,10 @@ PKEYS_UNUSED = {'read': ('need', 'chunks', 'maxarr', 'deadlines', 'events', 'max
 
 HARNESS = ['zz_vs_sched.go', 'zz_pair_test.go', 'zz_blocking_test.go']
 INSTR = {"files": {
-    "stream.go": {"funcs": ["pendingData.moveTo", "pendingData.clear", "pendingData.add", "Stream.getStreamState"]},
+    # preSelect: a scheduling point "Stream.readMore:select#k" in front of every select of readMore, so that events can be
+    # delivered after the state test (IsOpen saw "open") and before the select is evaluated
+    "stream.go": {"funcs": ["pendingData.moveTo", "pendingData.clear", "pendingData.add", "Stream.getStreamState",
+                            "Stream.readMore"], "preSelect": ["Stream.readMore"]},
     "queue.go": {"funcs": ["queue.put"]},
 }}
 
@@ -93,7 +96,7 @@ def configs(tier):
         # one read without deadline, every releasing event, stale or no notification token at entry
         rcfg(1, [0], [1, 2], 2, ['arr', 'half', 'close'], 0, [0, 1]),
         # ... and the session dying (Close / peer disappeared) with the teardown posted to the event loop
-        rcfg(5, [0], [2], 1, ['arr', 'close', 'sess'], 0, [0]),
+        rcfg(5, [0], [1], 2, ['arr', 'close', 'sess'], 0, [0]),
         # two reads with deadlines (timer reuse across calls), data and peer close
         rcfg(2, [1, 2], [2], 1, ['arr', 'half'], 2, [0]),
     ], [
@@ -148,7 +151,7 @@ def label(l):
     return m.group(1), int(m.group(2) or 0)
 
 
-RPOS = {'idle': 'idle', 'a1': 'mv', 'a2': 'mv', 'bm1': 'mv', 'bm2': 'mv', 'm1': 'mv', 'm2': 'mv', 'c1': 'mv', 'c2': 'mv', 'b': 'st', 'b2': 'st',
+RPOS = {'idle': 'idle', 'ps': 'ps', 'a1': 'mv', 'a2': 'mv', 'bm1': 'mv', 'bm2': 'mv', 'm1': 'mv', 'm2': 'mv', 'c1': 'mv', 'c2': 'mv', 'b': 'st', 'b2': 'st',
         'c3': 'st', 'sel': 'sel'}
 
 
@@ -270,25 +273,60 @@ def greedy(scheds, paths, b, rng):
     return [scheds[i] for i in chosen]
 
 
-KNOWN_ACTIONS = set('''RStart R_a1 R_a2 R_b R_bm1 R_bm2 R_b2 R_selTok R_selCls R_selTmr R_m1 R_m2 R_c1 R_c2 R_c3 ArrBegin ArrAdd
+KNOWN_ACTIONS = set('''RStart R_a1 R_a2 R_b R_bm1 R_bm2 R_b2 R_enter R_selTok R_selCls R_selTmr R_m1 R_m2 R_c1 R_c2 R_c3 ArrBegin ArrAdd
 ArrNotify HalfClose CloseCAS CloseFin SessNotify SessLambda TimerFire RTick FStart FAttempt FWaitTimer FWaitDeadline FWaitClosed
 Consume FHalfClose FSessClose FTick AStart ASelStream ASelShut NewStream ASessClose SStart SEnq SShut STimeout SAck STimerFire
 LoopTake LoopWritten LoopWriteFails LoopExit KStart KSend KShut SUnblock SSessClose SSessLambda STick IStart PeerReply PeerClose
 GoDone GoFail IResult ITimeout IJoin ITick'''.split())
+PRE = ['RStart', 'R_a1', 'R_a2', 'R_b']      # the reader has seen an empty buffer and an open stream: parked in front of the select
 MUST = [
+    # (name, mode, configuration, behaviour, repetitions quick/thorough)
     # the read timer fires while the reader is outside the select and the read returns by another arm - the next read must
     # not see a stale timer value
-    ('timer-reuse', 'read', 2, ['RStart', 'R_a1', 'R_a2', 'R_b', 'ArrBegin(2)', 'ArrAdd', 'ArrNotify', 'R_selTok', 'RTick', 'TimerFire',
-                                'R_m1', 'R_m2', 'RStart', 'R_a1', 'R_a2', 'R_b']),
-    ('timer-reuse-close-arm', 'read', 2, ['RStart', 'R_a1', 'R_a2', 'R_b', 'HalfClose', 'R_selCls', 'RTick', 'TimerFire', 'R_c1',
-                                          'R_c2', 'R_c3', 'RStart', 'R_a1', 'R_a2', 'R_b', 'R_bm1', 'R_bm2', 'R_b2']),
+    ('timer-reuse', 'read', 2, PRE + ['R_enter', 'ArrBegin(2)', 'ArrAdd', 'ArrNotify', 'R_selTok', 'RTick', 'TimerFire',
+                                      'R_m1', 'R_m2', 'RStart', 'R_a1', 'R_a2', 'R_b', 'R_enter'], (1, 1)),
+    ('timer-reuse-close-arm', 'read', 2, PRE + ['R_enter', 'HalfClose', 'R_selCls', 'RTick', 'TimerFire', 'R_c1', 'R_c2', 'R_c3',
+                                                'RStart', 'R_a1', 'R_a2', 'R_b', 'R_bm1', 'R_bm2', 'R_b2'], (1, 1)),
+    # the reader is held between the state test and the select while the peer's last message AND its close are delivered:
+    # token and close channel are both ready, Go takes either arm - repeated so that the close arm is taken with p > 99 %.
+    # Either arm must hand the bytes to the reader (C07: the end of the stream never overtakes delivered data)
+    ('select-data-and-close', 'read', 1, PRE + ['ArrBegin(2)', 'ArrAdd', 'ArrNotify', 'HalfClose', 'R_enter', 'R_selCls', 'R_c1',
+                                                'R_c2'], (10, 32)),
+    ('select-two-messages-and-close', 'read', 1, PRE + ['ArrBegin(1)', 'ArrAdd', 'ArrNotify', 'ArrBegin(1)', 'ArrAdd', 'ArrNotify',
+                                                        'HalfClose', 'R_enter', 'R_selCls', 'R_c1', 'R_c2'], (8, 24)),
+    # ... fewer bytes than wanted were flushed before the close: end of stream is the right answer (the oracle must not fire)
+    ('select-short-data-and-close', 'read', 1, PRE + ['ArrBegin(1)', 'ArrAdd', 'ArrNotify', 'HalfClose', 'R_enter', 'R_selCls',
+                                                      'R_c1', 'R_c2', 'R_c3'], (8, 16)),
+    # ... a second message is added after the first moveTo of the close arm (the session dies while it is being delivered)
+    ('select-close-then-second-message', 'read', 5, PRE + ['ArrBegin(1)', 'ArrAdd', 'ArrNotify', 'ArrBegin(1)', 'SessNotify',
+                                                           'R_enter', 'R_selCls', 'R_c1', 'ArrAdd', 'ArrNotify', 'R_c2'], (8, 16)),
     # the queue stays full and nothing else happens: Flush gives up after attempt 0 + 10 retries
-    ('flush-queue-stays-full', 'flush', 1, ['FStart'] + ['FAttempt', 'FWaitTimer'] * 10 + ['FAttempt']),
+    ('flush-queue-stays-full', 'flush', 1, ['FStart'] + ['FAttempt', 'FWaitTimer'] * 10 + ['FAttempt'], (1, 1)),
     # the send loop is stuck in a blocked write: waitForSend times out waiting for the result / for room in sendCh
-    ('send-timeout-waiting-result', 'send', 0, ['SStart', 'SEnq', 'STick', 'STimerFire', 'STimeout']),
-    ('send-timeout-waiting-room', 'send', 0, ['KStart', 'KSend', 'SStart', 'STick', 'STimerFire', 'STimeout']),
-    ('send-shutdown-waiting-room', 'send', 0, ['KStart', 'KSend', 'SStart', 'SSessClose', 'SShut']),
+    ('send-timeout-waiting-result', 'send', 0, ['SStart', 'SEnq', 'STick', 'STimerFire', 'STimeout'], (1, 1)),
+    ('send-timeout-waiting-room', 'send', 0, ['KStart', 'KSend', 'SStart', 'STick', 'STimerFire', 'STimeout'], (1, 1)),
+    ('send-shutdown-waiting-room', 'send', 0, ['KStart', 'KSend', 'SStart', 'SSessClose', 'SShut'], (1, 1)),
 ]
+
+
+def must_schedules(g, consts, tier, modes=None):
+    """the must-replay behaviours as schedules, each first verified to be a path of the TLC graph g"""
+    out, missing = [], []
+    for nm, mode, cid, lbls, rep in MUST:
+        if modes and mode not in modes:
+            continue
+        end = spec_path(g, mode, lbls, cid)
+        if end is None:
+            missing.append(nm)
+            continue
+        st = g.state(end)
+        for i in range(rep[0] if tier == 'quick' else rep[1]):
+            out.append({'name': 'must-%s-%d' % (nm, i), 'mode': mode, 'cid': cid,
+                        'steps': [{'a': label(l)[0], 'k': label(l)[1]} for l in lbls], 'init_tok': 0, 'need': consts['need'],
+                        'deadlines': list(st['rc']['dl']), 'qcap': st['fc']['qcap'], 'preload': st['fc']['preload'],
+                        'wdeadline': st['fc']['wdl'], 'scap': consts['scap'], 'spre': consts['spre'], 'cwt': consts['cwt'],
+                        'peer_died': False, 'eager': False})
+    return out, missing
 
 
 def spec_path(g, mode, labels, cid=None):
@@ -427,19 +465,13 @@ def run(prop, tier, seed, replay=None):
     # must-replay behaviours (each verified to be a path of the TLC graph): the read timer fires while the reader is
     # outside the select and the read returns by the data arm - the next read must not see a stale timer value
     gq = graphs[0]
-    c = cfgs[0]['consts']
-    for nm, mode, cid, lbls in MUST:
-        end = spec_path(gq, mode, lbls, cid)
-        if end is None:
-            ck.notes.append('must-replay behaviour %s is not a behaviour of the specification any more' % nm)
-            continue
-        st = gq.state(end)
-        sc = {'name': 'must-' + nm, 'mode': mode, 'cid': cid, 'steps': [{'a': label(l)[0], 'k': label(l)[1]} for l in lbls],
-              'init_tok': 0, 'need': 2, 'deadlines': list(st['rc']['dl']), 'qcap': st['fc']['qcap'], 'preload': st['fc']['preload'],
-              'wdeadline': st['fc']['wdl'], 'scap': c['scap'], 'spre': c['spre'], 'cwt': c['cwt'], 'peer_died': False, 'eager': False}
+    ms, missing = must_schedules(gq, cfgs[0]['consts'], ck.tier)
+    for nm in missing:
+        ck.notes.append('must-replay behaviour %s is not a behaviour of the specification any more' % nm)
+    for sc in ms:
         allsched.append(sc)
         bygraph[sc['name']] = (gq, sc)
-    ck.cov['must_replay_behaviours'] = [m[0] for m in MUST]
+    ck.cov['must_replay_behaviours'] = ['%s x%d' % (m[0], m[4][0] if ck.tier == 'quick' else m[4][1]) for m in MUST]
     # regression witness of the fixed finding wakeup-bare-send (commit 4dc1e7e): the behaviour of the specification that
     # used to end with the Flush stuck in the bare send; it must be a path of the TLC graph, and on the real code the
     # Flush must now come back with the shutdown error
@@ -501,6 +533,7 @@ def handle(ck, r, bygraph, known):
     ck.cov['releases_observed'] = r['releases']
     ck.cov['max_release_latency_us'] = r['max_release_us']
     ck.cov['returns_by_result'] = r['returns']
+    ck.cov['select_with_data_and_close_ready'] = arm_stats(r['runs'])
     ck.cov['spec_actions_executed_on_real_code'] = r.get('actions', {})
     ck.cov['timing_retries'] = r['timing_retries']
     ck.cov['spec_drift'] = bool(drift)
@@ -528,3 +561,114 @@ def do_replay(ck, path):
     for v in g.result['violations']:
         ck.violation('%s: %s' % (v['kind'], v['detail']), rep, name=os.path.basename(path))
     return ck.finish()
+
+
+# ------------------------------------------------------------------ entry points for C07 (checks/session.py)
+
+def arm_stats(runs):
+    """in the runs that release the reader with token AND close channel ready: which arm did Go's select take?
+    (token still in the channel after the reader left the select = the close arm was taken)"""
+    st = {'close_arm': 0, 'data_arm': 0}
+    for run_ in runs:
+        if not run_['name'].startswith(('must-select-data-and-close', 'must-select-two-messages-and-close',
+                                        'must-select-short-data-and-close')):
+            continue
+        for e in run_['events']:
+            if e['a'] == 'R_enter':
+                st['close_arm' if e['obs'].get('tok') == 1 else 'data_arm'] += 1
+    return st
+
+
+def _c07_oracle(ck, r, bygraph, cap=5):
+    """every run in which the reader was told the stream ended over delivered, unread bytes is a C07 violation"""
+    n = 0
+    for run_ in r['runs']:
+        if run_.get('eos_with_data'):
+            n += 1
+            if n <= cap:
+                sc = bygraph[run_['name']][1] if run_['name'] in bygraph else None
+                ck.violation('eos-overtakes-data (%s): %s' % (run_['name'], run_['eos_with_data']),
+                             {'kind': 'blocking-read', 'schedule': sc, 'detail': run_['eos_with_data']})
+    return n
+
+
+def c07_read_overtake(ck, tier=None):
+    """C07 through the Blocking machinery: TLC on the read configurations only, the must-replay select schedules and a sampled set
+    of read cover paths staged on real streams; ck.violation for every run where ReadBytes(Need) returned ErrEndOfStream although
+    >= Need bytes the peer flushed before closing had been delivered (pendingData + read buffer) and were unread.
+    Does not call ck.finish(). Returns the number of such runs (or None when inconclusive)."""
+    tier = tier or ck.tier
+    rng = random.Random(ck.seed)
+    cfg = mkrun('c07', ['read'], [
+        rcfg(1, [0], [1, 2], 2, ['arr', 'half', 'close'], 0, [0, 1]),
+        rcfg(5, [0], [1], 2, ['arr', 'close', 'sess'], 0, [0]),
+    ] + ([rcfg(2, [1, 2], [2], 1, ['arr', 'half'], 2, [0])] if tier == 'thorough' else []), [])
+    cfg_, res, nodes, edges, inits = run_tlc(cfg)
+    if res.violation or not res.ok or not edges:
+        ck.inconc('Blocking.tla (read configurations): TLC %s' % (('reports ' + res.violation) if res.violation
+                                                                   else 'did not complete: ' + (res.error or res.out[-300:])))
+        return None
+    g = Graph(cfg, res, nodes, edges, inits)
+    ck.add('states', res.distinct)
+    ck.add('transitions', len(edges))
+    ck.cov.setdefault('tlc_configs', []).append(
+        'Blocking (read configurations %s): %d distinct states, %d transitions, depth %d, %.0fs; invariants %s; temporal %s' % (
+            json.dumps(list(cfg['rcfgs'].values())), res.distinct, len(edges), res.depth, res.wall, cfg['invs'], cfg['props']))
+    unknown = {label(l)[0] for (_s, _d, l) in g.edges} - KNOWN_ACTIONS
+    if unknown:
+        ck.inconc('Blocking: the state graph has transitions the harness has no step for: %s' % sorted(unknown))
+        return None
+    scheds, totals = schedules_from(g, rng, {'read': 40 if tier == 'quick' else 300})
+    ms, missing = must_schedules(g, cfg['consts'], tier, modes=['read'])
+    for nm in missing:
+        if not nm.startswith('timer-reuse') or tier == 'thorough':
+            ck.notes.append('Blocking: must-replay behaviour %s is not a behaviour of the specification any more' % nm)
+    scheds += ms
+    bygraph = {s['name']: (g, s) for s in scheds}
+    hr = gorun.run_harness('^TestVS_Blocking$', HARNESS, INSTR, inputs={'job': {'schedules': scheds, 'bound_ms': 10000,
+                                                                               'tick_ms': 150}}, timeout=2400)
+    if hr.result is None:
+        ck.inconc('Blocking harness produced no result (rc=%d): %s' % (hr.rc, hr.out[-1500:]))
+        return None
+    r = hr.result
+    n = _c07_oracle(ck, r, bygraph)
+    nconf, drift = 0, []
+    for run_ in r['runs']:
+        if run_['name'] not in bygraph or run_.get('timing'):
+            continue
+        run_['mode'] = 'read'
+        for e in run_['events']:
+            e['obs']['cid'] = bygraph[run_['name']][1]['cid']
+        ok, where, _cov = validate(g, run_)
+        if ok:
+            nconf += 1
+        else:
+            drift.append('%s: %s' % (run_['name'], where))
+    ck.add('traces_validated_against_impl', nconf)
+    ck.cov['blocking_read_schedules'] = {'replayed': len(r['runs']), 'conforming': nconf, 'cover_paths': totals,
+                                         'must_replay': sorted({s['name'].rsplit('-', 1)[0] for s in ms}), 'steps': r['steps'],
+                                         'eos_results': r['returns'].get('eos', 0), 'eos_over_unread_data': n,
+                                         'select_with_data_and_close_ready': arm_stats(r['runs'])}
+    for d in drift[:3]:
+        print('SPEC-DRIFT module=Blocking at=%s' % d)
+    if drift:
+        ck.cov['spec_drift'] = True
+        ck.notes.append('Blocking: %d recorded read runs are not behaviours of the specification (first: %s)' % (len(drift), drift[0][:400]))
+    for inc in r['inconclusive'][:2]:
+        ck.inconc('Blocking: ' + inc)
+    ck.sample({'blocking_read_schedule': ms[0]['name'] if ms else scheds[0]['name'],
+               'steps': [x['a'] for x in (ms[0] if ms else scheds[0])['steps']]})
+    return n
+
+
+def c07_replay(ck, rep, repeat=16):
+    """re-execute one reported schedule (the select arm is chosen at random by Go: repeated `repeat` times)"""
+    sc = rep['schedule']
+    scheds = [dict(sc, name='%s-r%d' % (sc['name'], i)) for i in range(repeat)]
+    hr = gorun.run_harness('^TestVS_Blocking$', HARNESS, INSTR, inputs={'job': {'schedules': scheds, 'bound_ms': 10000,
+                                                                               'tick_ms': 150}}, timeout=900)
+    if hr.result is None:
+        ck.inconc('Blocking harness produced no result: ' + hr.out[-1500:])
+        return None
+    ck.cov['evaluations'] = len(hr.result['runs'])
+    return _c07_oracle(ck, hr.result, {s['name']: (None, s) for s in scheds}, cap=1)
